@@ -125,6 +125,9 @@ func (fx *fnExec) callStatic0(callee *ssa.Function, args []Val, bindings []Val, 
 	if ex.HavocCallsC != nil && ex.AbstractNames[callee.Name()] && !(c != nil && c.Pure) {
 		return fx.havocCall(name, callee, st, rt)
 	}
+	if c != nil && c.Pure && c.Recursive && callee.Blocks != nil {
+		return fx.callRecursivePure(callee, c, fx.softMaterializeArgs(args), st)
+	}
 	if c != nil && c.Pure && callee.Blocks != nil {
 		v, _ := ex.runFunc(callee, fx.softMaterializeArgs(args), nil, st.clone(), false, c)
 		return v
@@ -531,6 +534,15 @@ func (fx *fnExec) invoke(recv Val, m *types.Func, args []Val, st *State, pos tok
 	// contract on the interface method?
 	iname := typeName(it) + "." + m.Name()
 	if named, ok := it.(*types.Named); ok && named.Obj().Pkg() != nil {
+		// contracts scoped to the unit's package (`//@ only`) take precedence
+		if currentUnitPkg != "" {
+			if scs := ex.L.PkgContracts[currentUnitPkg+"|"+named.Obj().Pkg().Path()]; scs != nil {
+				if c, ok := scs.ByKey["("+named.Obj().Name()+")."+m.Name()]; ok {
+					ex.TrustedUsed["interface contract:"+iname] = true
+					return fx.applyIfaceContract(c, m, append([]Val{recv}, args...), st, pos, rt)
+				}
+			}
+		}
 		cs := ex.L.PkgContracts[named.Obj().Pkg().Path()]
 		if cs != nil {
 			if c, ok := cs.ByKey["("+named.Obj().Name()+")."+m.Name()]; ok {
